@@ -31,14 +31,17 @@
   false unless four more are added (all checked on the real implementation):
     3. escapes in string literals other than `\"` and `\\`:      a = { "\n" }     a = { "\x41\u{42}" }
     4. escapes in character literals:                            a = { 'a'..'\u{62}' }   (also `'''`)
-    5. leading zeros in numbers:                                 a = { "x"{007} }   a = { PEEK[-01..] }
+    5. leading zeros in numbers (any number of them since the
+       `fix:` commit 6f76b47, see `zeros_accepted`):             a = { "x"{007} }   a = { PEEK[-01..] }
     6. a doc line ended by CR LF or by the end of the text:      "/// x\r\na = { b }"   "a = { b }\n/// x"
   and `WF` asks two things a text need not satisfy to be accepted (`wf_iff`):
     * `|i| ≤ 4294967295` for the indices of `PEEK[a..b]`.  python-pest does not check slice
       indices: `a = { PEEK[99999999999..] }` is accepted (FINDING: pest itself — `pest_meta`
       parses them as `i32` — does not accept this text; it is syntactically valid by the
       meta-grammar, so it is no counterexample to the reject half, but it is a text the Rust
-      implementation refuses and python-pest loads);
+      implementation refuses and python-pest loads).  `WF'` only keeps "at most 4300
+      significant digits" (`SliceIdxOK`), CPython's `int()` limit, beyond which python-pest
+      answers "number too large";
     * no doc line ends with CR.  `"a = { b }\n///x\r"` (no final LF) is accepted and the doc line is `x\r`.
   So the theorem is stated with `WF'` (= `WF` without these two, Front/AstText2.lean).
 
@@ -49,9 +52,14 @@
   -- exactly "slice indices within ±(2³²−1), no doc line ends with CR"
   -- (`front_accepts_only_grammar_texts_partial`).
 
-  One implementation limit is part of `GrammarText'` (`NumSpell`): a number of more than 4300
-  digits (`a = { "x"{000…01} }`) is rejected ("number too large", CPython's `int()` limit) though
-  pest's meta-grammar allows it.
+  Repaired in /repo and carried through model and proofs (the two C10 findings
+  `doc-comment-keeps-leading-blank` and `int-digit-limit`):
+    * `fix:` 77be14c — the optional blank after `///` / `//!` belongs to the marker
+      (`DocSp` in `DocsText` / `DocsText'`; the AST's doc line is pest's `inner_doc`): `doc_blank_dropped`;
+    * `fix:` 6f76b47 — leading zeros do not count towards CPython's `int()` digit limit: `NumSpell`
+      and `IntSpell` have no length clause any more (a repetition bound is limited by u32 in
+      `WFPost`, a slice index by `SliceIdxOK` in `WF'`, both properties of the *value*):
+      `zeros_accepted`.
 -/
 import PestModel.Lemmas.FrontInvGlue
 import PestModel.Lemmas.FrontInvParse
@@ -198,8 +206,11 @@ def peekBigText : Text :=
   [97, 61, 123, 80, 69, 69, 75, 91, 52, 50, 57, 52, 57, 54, 55, 50, 57, 54, 46, 46, 93, 125]
 
 theorem peekBig_wf' : peekBig.WF' := by
-  simp [peekBig, SGrammar.WF', SRule.WF', SExpr.WF', STerm.WF', SNode.WF']
-  unfold IsIdent; decide
+  have hlen : (natDigits 4294967296).length ≤ 4300 := by
+    have := IG.natDigits_length_le (n := 4294967296) (k := 10) (by decide) (by decide)
+    omega
+  have hid : IsIdent [97] := by unfold IsIdent; decide
+  simp [peekBig, SGrammar.WF', SRule.WF', SExpr.WF', STerm.WF', SNode.WF', SliceIdxOK, hid, hlen]
 
 theorem peekBig_not_wf : ¬ peekBig.WF := by
   simp [peekBig, SGrammar.WF, SRule.WF, SExpr.WF, STerm.WF, SNode.WF]
@@ -219,7 +230,7 @@ theorem peekBig_layout : GrammarText' peekBig peekBigText := by
     Sc'.cons (w := [80, 69, 69, 75]) (ws := []) _ rfl .nil <|
     Sc'.cons (w := [91]) (ws := []) _ rfl .nil <|
     Sc'.cons (w := [52, 50, 57, 52, 57, 54, 55, 50, 57, 54]) (ws := []) _
-      ⟨4294967296, rfl, .nonneg (n := 4294967296) ⟨by decide, by decide, by decide, by decide⟩⟩ .nil <|
+      ⟨4294967296, rfl, .nonneg (n := 4294967296) ⟨by decide, by decide, by decide⟩⟩ .nil <|
     Sc'.cons (w := [46, 46]) (ws := []) _ rfl .nil <|
     Sc'.cons (w := [93]) (ws := []) _ rfl .nil <|
     Sc'.cons (w := [125]) (ws := []) _ rfl .nil <|
@@ -233,6 +244,105 @@ theorem peekBig_accepted (b : List String) :
   rw [front_roundtrip_text' b peekBig peekBig_wf' peekBig_layout]
   simp [peekBig, SGrammar.den, SRule.den, SExpr.den, SExpr.groups, STerm.den, SNode.den, mkSeq, mkChoice,
     dictSet]
+
+/-! ### the two repaired findings -/
+
+/-- `"x"` -/
+def strX : SExpr := .one (.mk none [] (.str [120]) [])
+
+/-- `/// doc` + LF + `a={"x"}` -/
+def docText : Text := [47, 47, 47, 32, 100, 111, 99, 10, 97, 61, 123, 34, 120, 34, 125]
+
+def docGrammar : SGrammar := ⟨[], [⟨[[100, 111, 99]], [97], none, false, strX⟩], []⟩
+
+theorem isIdent_a : IsIdent [97] := by unfold IsIdent; decide
+
+theorem docGrammar_wf' : docGrammar.WF' := by
+  simp [docGrammar, strX, SGrammar.WF', SRule.WF', SExpr.WF', STerm.WF', SNode.WF', isIdent_a, NoLF]
+
+theorem strX_headKV (docs : List Text) : (⟨docs, [97], none, false, strX⟩ : SRule).headKV =
+    [(.identifier, [97]), (.assignOp, [61]), (.lbrace, [123]), (.string, [120]), (.rbrace, [125])] := by
+  simp [strX, SRule.headKV, SExpr.kv, STerm.kv, SNode.kv, tagKV, modKV, barKV]
+
+theorem docText_layout : GrammarText' docGrammar docText := by
+  refine ⟨[], docText, docText, [], [], .nil, rfl, rfl, ?_, rfl, .inl rfl⟩
+  refine ⟨[97, 61, 123, 34, 120, 34, 125], [], ?_, ?_, rfl⟩
+  · exact ⟨[32], [10], _, .inl rfl, .lf .nil, rfl, .inr (.inl ⟨_, rfl, by decide⟩), rfl⟩
+  · rw [strX_headKV]
+    exact
+      Sc'.cons (w := [97]) (ws := []) _ rfl .nil <|
+      Sc'.cons (w := [61]) (ws := []) _ rfl .nil <|
+      Sc'.cons (w := [123]) (ws := []) _ rfl .nil <|
+      Sc'.cons (w := [34, 120, 34]) (ws := []) _ ⟨[120], rfl, .char 120 (by decide) (by decide) .nil⟩ .nil <|
+      Sc'.cons (w := [125]) (ws := []) _ rfl .nil <|
+      Sc'.nil _
+
+/-- **doc-comment-keeps-leading-blank, repaired** (`fix:` 77be14c): the doc line of
+    `/// doc` is `doc`, not ` doc` -/
+theorem doc_blank_dropped (b : List String) :
+    load b docText = .ok ⟨[⟨nameOf [97], 0, .str [120], [[100, 111, 99]]⟩], []⟩ := by
+  rw [front_roundtrip_text' b docGrammar docGrammar_wf' docText_layout]
+  simp [docGrammar, strX, SGrammar.den, SRule.den, SExpr.den, SExpr.groups, STerm.den, SNode.den, mkSeq,
+    mkChoice, dictSet]
+
+/-- the printer writes the separating blank, so print → load is the identity also for a doc line
+    that itself starts with a blank (an instance of `front_roundtrip` of Props/C10.lean) -/
+example (b : List String) :
+    load b (⟨[], [⟨[[32, 100]], [97], none, false, strX⟩], []⟩ : SGrammar).pretty =
+      .ok ⟨[⟨nameOf [97], 0, .str [120], [[32, 100]]⟩], []⟩ := by
+  rw [front_roundtrip b _ (by
+    simp [strX, SGrammar.WF, SRule.WF, SExpr.WF, STerm.WF, SNode.WF, isIdent_a, IsDocLine]
+    decide)]
+  simp [strX, SGrammar.den, SRule.den, SExpr.den, SExpr.groups, STerm.den, SNode.den, mkSeq, mkChoice, dictSet]
+
+/-- `a={"x"{0…01}}` with `k` zeros -/
+def zerosText (k : Nat) : Text :=
+  [97] ++ ([61] ++ ([123] ++ ([34, 120, 34] ++ ([123] ++ ((List.replicate k 48 ++ [49]) ++ ([125] ++ [125]))))))
+
+def zerosGrammar : SGrammar :=
+  ⟨[], [⟨[], [97], none, false, .one (.mk none [] (.str [120]) [.exact 1])⟩], []⟩
+
+theorem zerosGrammar_wf' : zerosGrammar.WF' := by
+  simp [zerosGrammar, SGrammar.WF', SRule.WF', SExpr.WF', STerm.WF', SNode.WF', isIdent_a, WFPost]
+
+theorem numSpell_zeros (k : Nat) : NumSpell 1 (List.replicate k 48 ++ [49]) := by
+  refine ⟨by simp, ?_, ?_⟩
+  · simp only [List.all_append, List.all_replicate, Bool.and_eq_true]
+    exact ⟨by cases k <;> simp [isDigit], by decide⟩
+  · induction k with
+    | zero => rfl
+    | succ k ih => rw [List.replicate_succ, List.cons_append, digitsVal_cons_zero]; exact ih
+
+theorem zerosText_layout (k : Nat) : GrammarText' zerosGrammar (zerosText k) := by
+  refine ⟨[], zerosText k, zerosText k, [], [], .nil, rfl, rfl, ?_, rfl, .inl rfl⟩
+  refine ⟨zerosText k, [], rfl, ?_, rfl⟩
+  have hk : (⟨[], [97], none, false, .one (.mk none [] (.str [120]) [.exact 1])⟩ : SRule).headKV =
+      [(.identifier, [97]), (.assignOp, [61]), (.lbrace, [123]), (.string, [120]), (.lbrace, [123]),
+       (.number, natDigits 1), (.rbrace, [125]), (.rbrace, [125])] := by
+    simp [SRule.headKV, SExpr.kv, STerm.kv, SNode.kv, tagKV, modKV, barKV, postKV]
+  rw [hk]
+  exact
+    Sc'.cons (w := [97]) (ws := []) _ rfl .nil <|
+    Sc'.cons (w := [61]) (ws := []) _ rfl .nil <|
+    Sc'.cons (w := [123]) (ws := []) _ rfl .nil <|
+    Sc'.cons (w := [34, 120, 34]) (ws := []) _ ⟨[120], rfl, .char 120 (by decide) (by decide) .nil⟩ .nil <|
+    Sc'.cons (w := [123]) (ws := []) _ rfl .nil <|
+    Sc'.cons (w := List.replicate k 48 ++ [49]) (ws := []) _ ⟨1, rfl, numSpell_zeros k⟩ .nil <|
+    Sc'.cons (w := [125]) (ws := []) _ rfl .nil <|
+    Sc'.cons (w := [125]) (ws := []) _ rfl .nil <|
+    Sc'.nil _
+
+/-- **int-digit-limit, repaired** (`fix:` 6f76b47): a bound written with any number of leading
+    zeros — 4400 of them, say — is its value -/
+theorem zeros_accepted (b : List String) (k : Nat) :
+    load b (zerosText k) = .ok ⟨[⟨nameOf [97], 0, .repExact (.str [120]) 1, []⟩], []⟩ := by
+  rw [front_roundtrip_text' b zerosGrammar zerosGrammar_wf' (zerosText_layout k)]
+  simp [zerosGrammar, SGrammar.den, SRule.den, SExpr.den, SExpr.groups, STerm.den, SNode.den, mkSeq,
+    mkChoice, dictSet, applyPost]
+
+example (b : List String) :
+    load b (zerosText 4400) = .ok ⟨[⟨nameOf [97], 0, .repExact (.str [120]) 1, []⟩], []⟩ :=
+  zeros_accepted b 4400
 
 end C10
 end Pest
